@@ -62,6 +62,7 @@ class SimSocket:
         self.wr_shutdown = False
         self.total_sent = 0
         self.total_received = 0
+        self.tx_times = []  # (cumulative bytes sent, virtual time) per send call
         net._fileno += 1
         self._fd = net._fileno
 
@@ -158,6 +159,7 @@ class SimSocket:
                 n = max(1, min(n, p))
         self.peer.rx.extend(data[:n])
         self.total_sent += n
+        self.tx_times.append((self.total_sent, sim.now))
         self.net.send_calls.append((self.name, len(data), n))
         self.net.activity()
         return n
